@@ -786,8 +786,13 @@ func TestReverseScripted(t *testing.T) {
 		var batches [][]entry
 		var cur []entry
 		answered := 0
-		strays, dups := 0, 0
+		strays, dups, foreign := 0, 0, 0
 		for _, i := range order {
+			if rapid.IntRange(0, 3).Draw(rt, "foreign") == 0 {
+				// another provider (its own id, same caller) posts a result under the identifier of this pending call
+				cur = append(cur, entry{"foreign", i})
+				foreign++
+			}
 			for rapid.IntRange(0, 2).Draw(rt, "extra") == 0 {
 				if answered > 0 && rapid.Bool().Draw(rt, "dupNotStray") {
 					cur = append(cur, entry{"dup", rapid.IntRange(0, answered-1).Draw(rt, "which")})
@@ -814,6 +819,9 @@ func TestReverseScripted(t *testing.T) {
 		client := rig.server.Client(10 * time.Second)
 		client.RequestHeaders().Set("id", pid)
 		defer client.Abort()
+		other := rig.server.Client(10 * time.Second)
+		other.RequestHeaders().Set("id", pid+"-other")
+		defer other.Abort()
 		tags := make([]string, n)
 		done := make([]chan result, n)
 		for i := range tags {
@@ -873,6 +881,11 @@ func TestReverseScripted(t *testing.T) {
 						payload = append(payload, []interface{}{answeredIdx[e.Which%len(answeredIdx)], "dup", ""})
 					case "stray":
 						payload = append(payload, []interface{}{[]int{0, 1 << 30, 987654321, 77777777}[e.Which], "stray", ""})
+					case "foreign":
+						forged := []interface{}{[]interface{}{index[tags[e.Which]], "forged by another provider", ""}}
+						if _, err := other.Invoke("=", []interface{}{forged}); err != nil && problem == "" {
+							problem = fmt.Sprintf("end of the other provider failed: %v", err)
+						}
 					}
 				}
 				if _, err := client.Invoke("=", []interface{}{payload}); err != nil {
@@ -895,7 +908,7 @@ func TestReverseScripted(t *testing.T) {
 				}
 			}
 		}
-		ev.S.Case("reverse-scripted", canon, strays+dups > 0, fmt.Sprintf("reverse-strays=%v", strays > 0), fmt.Sprintf("reverse-dups=%v", dups > 0), fmt.Sprintf("reverse-batches=%d", min(len(batches), 4)))
+		ev.S.Case("reverse-scripted", canon, strays+dups+foreign > 0, fmt.Sprintf("reverse-strays=%v", strays > 0), fmt.Sprintf("reverse-dups=%v", dups > 0), fmt.Sprintf("reverse-other-provider=%v", foreign > 0), fmt.Sprintf("reverse-batches=%d", min(len(batches), 4)))
 		report(rt, "reverse-scripted", "TestReverseScripted", canon, problem)
 	})
 }
